@@ -449,9 +449,22 @@ func (g *Values) Fill(v reflect.Value) {
 		n := t.Intn(maxLen + 1)
 		if v.Type().Elem().Kind() == reflect.Uint8 {
 			n = strLens[t.Intn(len(strLens))]
+			if t.Chance(1, 30) {
+				n = 125 + t.Intn(6) // around the one-byte / two-byte length prefix
+			}
+			if g.C != JSON && t.Chance(1, 400) {
+				n = 16381 + t.Intn(5) // two-byte / three-byte
+			}
 			b := make([]byte, n)
-			for i := range b {
-				b[i] = byte(t.Intn(256))
+			if n > 200 {
+				// drawn sparsely: long values must not cost a draw per byte
+				for i := 0; i < n; i += 97 {
+					b[i] = byte(t.Intn(256))
+				}
+			} else {
+				for i := range b {
+					b[i] = byte(t.Intn(256))
+				}
 			}
 			v.SetBytes(b)
 			return
